@@ -48,10 +48,9 @@ Qed.
 Lemma s_app_no_rows a b : fst a = [] -> fst b = [] -> fst (s_app a b) = [].
 Proof. intros Ha Hb. unfold s_app. destruct (snd a); [exact Ha|]. cbn [fst]. rewrite Ha, Hb. reflexivity. Qed.
 
-Lemma walk_raw_no_rows : forall j name, fst (walk_raw name j) = [].
+Lemma walk_raw_no_rows : forall j, fst (walk_raw j) = [].
 Proof.
-  fix IH 1. intros j name. destruct j as [| b | z | t | t | l | kv]; cbn [walk_raw];
-    destruct (pstr_eqb name key_types_name); try reflexivity.
+  fix IH 1. intros j. destruct j as [| b | z | t | t | l | kv]; cbn [walk_raw]; try reflexivity.
   - induction l as [|x l IHl]; [reflexivity|]. cbn [fold_right]. apply s_app_no_rows; [apply IH | exact IHl].
   - induction kv as [|[k v] kv IHl]; [reflexivity|]. cbn [fold_right fst snd]. apply s_app_no_rows; [apply IH | exact IHl].
 Qed.
@@ -77,9 +76,6 @@ Section WalkFacts.
     r_level r = level /\ r_key r = name /\ r_last r = last /\ row_of h (Node h subs) r.
   Proof.
     destruct fuel as [|fuel]; [nope|]. cbn [walk].
-    destruct (pstr_eqb name key_types_name).
-    { destruct (h_kind h); try nope. unfold s_lift.
-      destruct (unsafe E T root (Node h subs)) as [[|]|]; nope. }
     unfold s_lift.
     destruct (node_format h) as [val|e] eqn:NF; [|nope].
     destruct (self_safe E T h) as [ss|e] eqn:SS; [|nope].
@@ -105,7 +101,7 @@ Section WalkFacts.
     fst (walk E T skipped root fuel path name level last (Leaf sl l)) = [].
   Proof.
     destruct fuel; [reflexivity|]. cbn [walk].
-    destruct l; try (destruct (pstr_eqb name key_types_name); reflexivity). apply walk_raw_no_rows.
+    destruct l; try reflexivity. apply walk_raw_no_rows.
   Qed.
 End WalkFacts.
 
